@@ -7,6 +7,7 @@
 //!       evaluate the property's own oracle on the implementation only (used to find a failing
 //!       input when a proof obligation or the correspondence no longer checks).
 pub mod util;
+pub mod sched;
 pub use util::*;
 
 pub struct Args {
